@@ -631,17 +631,32 @@ class ContractMixin:
         """any(...)/all(...) over a comprehension as ONE recursive function (map and fold fused):
         any_k(s, caps) = len(s) > 0 and (body(s[0]) or any_k(s[1:], caps))"""
         _, body, filt, x, ety, rty, seqterm = meta
-        body = recfuns.bool_simplify(body)
         if not is_any:
             # canonical form: all(P) is not any(not P), so that both folds over the same body are one function
-            nb = body.arg(0) if z3.is_not(body) else z3.Not(body)
+            b0 = recfuns.bool_simplify(body, sort_args=False)
+            nb = b0.arg(0) if z3.is_not(b0) else z3.Not(b0)
             return z3.Not(self.fused_fold(True, ('comp', nb, filt, x, ety, rty, seqterm)))
-        caps = captures([body] + ([filt] if filt is not None else []), x)
-        ph = [z3.Const(f'cap!{i}!{c.sort()}', c.sort()) for i, c in enumerate(caps)]
+        # canonical body: (1) the captured subterms are replaced by placeholders in order of first occurrence,
+        # (2) and/or arguments are sorted on the placeholder form (so that the order does not depend on the names of
+        # what is captured), (3) the placeholders are renumbered by first occurrence in the sorted body
+        body = recfuns.bool_simplify(body, sort_args=False)
+        caps0 = captures([body] + ([filt] if filt is not None else []), x)
+        tmp = [z3.Const(f'tmp!cap!{i}!{c.sort()}', c.sort()) for i, c in enumerate(caps0)]
         px = z3.Const(f'elem!{ety.z3sort()}', ety.z3sort())
-        sub = [(c, p) for c, p in zip(caps, ph)] + [(x, px)]
-        nbody = z3.substitute(body, *sub)
-        nfilt = z3.substitute(filt, *sub) if filt is not None else None
+        sub0 = [(c, p) for c, p in zip(caps0, tmp)] + [(x, px)]
+        b1 = recfuns.bool_simplify(z3.substitute(body, *sub0))
+        f1 = z3.substitute(filt, *sub0) if filt is not None else None
+        order = []
+        for t_ in captures([b1] + ([f1] if f1 is not None else []), px):
+            for i, p_ in enumerate(tmp):
+                if p_.eq(t_) and i not in order:
+                    order.append(i)
+        order += [i for i in range(len(tmp)) if i not in order]
+        caps = [caps0[i] for i in order]
+        ph = [z3.Const(f'cap!{k}!{caps0[i].sort()}', caps0[i].sort()) for k, i in enumerate(order)]
+        sub1 = [(tmp[i], ph[k]) for k, i in enumerate(order)]
+        nbody = z3.substitute(b1, *sub1)
+        nfilt = z3.substitute(f1, *sub1) if f1 is not None else None
         key = ('fold', is_any, nbody.sexpr(), nfilt.sexpr() if nfilt is not None else None, str(ety.z3sort()))
         if key not in _AUX_COMP:
             name = f'{"any" if is_any else "all"}{len(_AUX_COMP)}'
